@@ -103,7 +103,9 @@ def received_cfg(v, gv):
             return ['obj', 'LabChainObj', {'a': received_cfg(kw['a'], gv), 'inited': True, 'saw_tasks': True, 'chain_usable_now': True}]
         return ['obj', name, {'x': received_cfg(kw['x'], gv)}]
     if isinstance(v, tuple) and v and v[0] == 'path':
-        return ['p', subst_text(v[1], gv)] if v[1] is not None else ['N']
+        # (what run receives is a Path: `a//b`, `a/./b`, a trailing slash are spelled the way pathlib spells them)
+        import pathlib
+        return ['p', str(pathlib.PurePosixPath(subst_text(v[1], gv)))] if v[1] is not None else ['N']
     if isinstance(v, str):
         return ['s', subst_text(v, gv)]
     if isinstance(v, list):
